@@ -17,6 +17,8 @@
 
 #include <random>
 
+#include "verif_hooks.hpp"
+
 namespace pops {
 
 /**
@@ -58,6 +60,20 @@ public:
     Real operator()(Generator& generator)
     {
         Real value = normal_distribution_(generator);
+#ifdef POPS_CORE_VERIF
+        if (value < low_ || value > high_) {
+            Real verif_fallback = uniform_distribution_(generator);
+            POPS_VERIF_EVENT(
+                "fallback",
+                generator,
+                static_cast<double>(value),
+                1.0,
+                static_cast<double>(verif_fallback));
+            return verif_fallback;
+        }
+        POPS_VERIF_EVENT(
+            "fallback", generator, static_cast<double>(value), 0.0, static_cast<double>(value));
+#endif
         if (value < low_ || value > high_) {
             // Value is out of range, get a random value in range.
             return uniform_distribution_(generator);
